@@ -50,6 +50,8 @@ def _make_task_class() -> Any:
 
         def _outputs(self, it: int) -> dict[str, Any]:
             out: dict[str, Any] = {}
+            if self.spec.get("once") and it > 0:
+                return out     # produces its outputs in the first iteration only
             for k, kind in (self.spec.get("out") or {}).items():
                 v = f"{self.ref}.{self.idx}#{it}#{k}"
                 out[k] = [v] if kind == "l" else v
@@ -366,6 +368,7 @@ DEFAULT_PROFILE: dict[str, Any] = {
     "mutex_p": 0.0,
     "choice_p": 0.0,
     "reducers_p": 0.0,
+    "once_p": 0.0,            # an ok-task that produces its outputs in the first loop iteration only
     "max_jumps": [None, None, 1, 3],
     "confluent_only": False,
 }
@@ -426,6 +429,8 @@ def gen_task(ch: Choices, profile: dict[str, Any], with_outputs: bool = True) ->
                 else:
                     out[ch.choice("sk", SCALAR_KEYS)] = "s"
         t["out"] = out
+    if kind == "ok" and profile.get("once_p", 0) and ch.flip("once", profile["once_p"]):
+        t["once"] = True
     if kind == "poller":
         t["n"] = 1 + ch.pick("polls", 3)
     if kind == "transient":
